@@ -283,3 +283,16 @@ func isPanicOrFatal(i ssa.Instruction) bool {
 	}
 	return false
 }
+
+// onEveryPath: no return of f is reachable from its entry without passing a
+// call to one of keys (deferred calls count where they are registered).
+func onEveryPath(f *ssa.Function, keys ...string) bool {
+	if len(core.CallsIn(f, keys...)) == 0 {
+		return false
+	}
+	res := core.ReachAvoiding(f, nil, core.IsReturn, func(i ssa.Instruction) bool {
+		_, ok := core.IsCall(i, keys...)
+		return ok
+	}, nil)
+	return !res.Found
+}
